@@ -278,19 +278,17 @@ class Analysis:
         tr = type_range(ty)
         if tr is None and not pair:
             return None
-        key = (f.key, l)
-        if key in stack or depth > 40:
+        key = (f.key, l, pos)
+        if key in stack or depth > 40 or len(stack) > 120:
             return tr
         stack = stack | {key}
         iv = None
-        if 1 <= l <= f.argc and not [d for d in f.defs(l) if f._def_reaches(d, pos)]:
+        if 1 <= l <= f.argc and not f.reaching_defs(l, pos):
             e = env if env is not None else self.param_env.get(f.key, {})
             iv = e.get(l, tr)
         else:
             first = True
-            for d in f.defs(l):
-                if not f._def_reaches(d, pos):
-                    continue
+            for d in f.reaching_defs(l, pos):
                 v = self._eval_def(f, d, env, depth, stack, pair)
                 if first:
                     iv, first = v, False
@@ -599,7 +597,7 @@ class Analysis:
         byty = self.len_of_ty(f.local_ty(l))
         if byty:
             return byty
-        ds = [d for d in f.defs(l) if f._def_reaches(d, pos)]
+        ds = f.reaching_defs(l, pos)
         if len(ds) != 1:
             return UNK
         d = ds[0]
